@@ -39,6 +39,16 @@ pub fn mkfs(fs: &str,label: &str) -> Result<Box<dyn DiskFS>,String> {
 /// chunk payload: deterministic in (file id, chunk index), unique per (id,idx), never all-equal
 pub fn payload(id: usize,idx: usize,len: usize) -> Vec<u8> {
     let mut v: Vec<u8> = (0..len).map(|j| ((id*37 + idx*11 + j*7 + (j>>8)*3 + 1) & 0xff) as u8).collect();
+    // some chunks hold what compressing containers treat specially: one byte value throughout except for the last 1..7 bytes, or a
+    // two-byte pattern (the sectors behind the first one of such a chunk are then uniform / periodic from their first byte on)
+    if len>=64 {
+        let fill = ((id*13 + idx*5) & 0xff) as u8;
+        match (id + idx) % 5 {
+            3 => { for j in 16..len { v[j] = fill; } let k = 1 + (id + idx) % 7; for j in len-k..len { v[j] = fill ^ 0xff; } },
+            1 => { for j in 16..len { v[j] = if j%2==0 { fill } else { fill ^ 0xaa }; } },
+            _ => {}
+        }
+    }
     let tag = [0xA5u8,(id & 0xff) as u8,(id>>8) as u8,(idx & 0xff) as u8,(idx>>8) as u8,0x5A];
     for (i,b) in tag.iter().enumerate() { if i<len { v[i] = *b; } }
     v
@@ -550,6 +560,23 @@ pub fn run(toks: &[&str]) -> String {
         r.trace.push(tl);
         if do_reload && (step%4==3 || step+1==ops.len()) {
             if let Err(e) = crate::fsckrun::reload_check(&mut r) { raise!(format!("C06 {} [step {} op {}]",e,step,op)); }
+        }
+    }
+    // C05: the glob of the whole volume lists exactly the stored files under their true paths
+    if fail.is_none() && (fs=="fat" || fs=="prodos") {
+        if let Ok(found) = r.disk.glob("**",false) {
+            // (ProDOS paths start with the volume name)
+            let mut got: Vec<String> = found.iter().map(|p| { let t = p.trim_start_matches('/'); let t = if fs=="prodos" { match t.find('/') { Some(i) => &t[i+1..], None => t } } else { t }; t.to_uppercase() }).collect();
+            got.sort(); got.dedup();
+            let mut want: Vec<String> = r.shadow.iter().filter(|(_,v)| !v.is_dir).map(|(k,_)| k.to_uppercase()).collect();
+            want.sort();
+            if got!=want {
+                let extra: Vec<&String> = got.iter().filter(|x| !want.contains(x)).take(4).collect();
+                let missing: Vec<&String> = want.iter().filter(|x| !got.contains(x)).take(4).collect();
+                let m = format!("C05 glob of the whole volume differs from the history: unexpected {:?} missing {:?}",extra,missing);
+                let foreign = match &focus { Some(fc) => fc!="C05", None => false };
+                if foreign { foreign_notes.push(format!("other-property: {}",m)); } else { fail = Some(m); }
+            }
         }
     }
     r.notes.append(&mut foreign_notes);
